@@ -103,16 +103,35 @@ def _format_tokens(fn_path, t):
                 argv.append((trait + ":" + ty, strip(e[2][0])))
             else:
                 argv.append(("?", e))
-    toks = []
-    for kind, v in decode_template(tpl[2]):
-        if kind == "lit":
-            toks.append(("lit", v))
-        else:
-            if v["arg"] >= len(argv):
-                raise CannotInterpret("format placeholder refers to argument %d of %d in %s" % (v["arg"], len(argv), fn_path))
-            trait, tree = argv[v["arg"]]
-            toks.append(("val", tree, trait, v, fn_path))
-    return toks
+    def build(av):
+        toks = []
+        for kind, v in decode_template(tpl[2]):
+            if kind == "lit":
+                toks.append(("lit", v))
+            else:
+                if v["arg"] >= len(av):
+                    raise CannotInterpret("format placeholder refers to argument %d of %d in %s" % (v["arg"], len(av), fn_path))
+                trait, tree = av[v["arg"]]
+                toks.append(("val", tree, trait, v, fn_path))
+        return toks
+    # `let (attrs, text) = match v { A => ("a", ..), B => ("b", ..) }; format!("<t {attrs}>{text}</t>")`: the template
+    # is instantiated once per arm (the arguments that are choices between string literals select the arm; other
+    # arguments with the same number of alternatives come from the same arms)
+    def const_phi(tr):
+        tr = strip(tr)
+        return tr[0] == "phi" and all(strip(a)[0] == "const" and isinstance(strip(a)[2], str) for a in tr[1])
+    ks = {len(strip(tr)[1]) for _, tr in argv if const_phi(tr)}
+    if len(ks) == 1:
+        k = ks.pop()
+        alts = []
+        for i in range(k):
+            av = []
+            for trait, tr in argv:
+                st = strip(tr)
+                av.append((trait, st[1][i]) if st[0] == "phi" and len(st[1]) == k else (trait, tr))
+            alts.append(build(av))
+        return [("alt", alts)]
+    return build(argv)
 
 
 def sval(prog, fn, t, depth=0):
